@@ -86,7 +86,9 @@ def run(ctx):
                            % (len(lost), len(cases)), case=c["id"], input=c.get("input"), note=c.get("note", "")[:3000]), nofail=True)
     if bad:
         # property monitor false first (a concrete violation), smallest store first
-        bad.sort(key=lambda x: (not x[3], x[0]["dist"]["plans"]))
+        def half_closed(o):
+            return bool(o) and o.get("status") == "Running" and o.get("after_status") == "Failed" and o.get("running_after", 0) > 0
+        bad.sort(key=lambda x: (not x[3], not half_closed(x[1]), x[0]["dist"]["plans"]))
         c, plan_obs, why, monfalse = bad[0]
         if plan_obs and plan_obs.get("status") == "Running" and plan_obs.get("after_status") == "Failed" and plan_obs.get("running_after", 0) > 0:
             why += " -- aged plan closed incompletely: the plan row is Failed but %d object(s) in it are still Running in the store (%d Update* call(s) seen)" % (
